@@ -272,13 +272,21 @@ def level_payload(P, N, cl, n):
         and N.norm(t.elts[1], FrameEnv(n.frame)).is_({'self._level': 1}) and ast.unparse(cl.args[1]) == 'self.name'
 
 
-def dirty_pairing(ctx, o, c, field, sub, label, payload_check=None, entries=None, env_field=None):
-    """K4 dirty bit: a write of self.<field> (or self.<field>[k] when sub) sets the bit, the add_datapoint(label, ...) clears it;
-    the bit is clean at every exit of every entry point and at the next write."""
+def dirty_pairing(ctx, o, c, field, sub, label, payload_check=None, entries=None, env_field=None, is_write=None, what=None, opaque=OPQ,
+                  fixed_fields=None):
+    """K4 dirty bit: a write of self.<field> (or self.<field>[k] when sub; or any node accepted by is_write(node)) sets the bit,
+    add_datapoint(label, ...) clears it; the bit must be clean at every exit of every entry point and at the next write.
+    returns the number of entry points in which a write was reachable."""
     P = ctx.P
+    what = what or f'a change of {field}'
 
-    def writes(a):
-        tg = a.targets if isinstance(a, ast.Assign) else [a.target] if isinstance(a, ast.AugAssign) else []
+    def writes(n):
+        a = n.ast
+        if is_write is not None:
+            return is_write(n)
+        if n.kind != 'stmt' or not isinstance(a, (ast.Assign, ast.AugAssign)) or n.frame.func.name == '__init__':
+            return False
+        tg = a.targets if isinstance(a, ast.Assign) else [a.target]
         for t in tg:
             if sub:
                 if isinstance(t, ast.Subscript) and is_self_attr(t.value, field):
@@ -289,43 +297,43 @@ def dirty_pairing(ctx, o, c, field, sub, label, payload_check=None, entries=None
 
     def hook(an, n, before, after):
         st = after
-        a = n.ast
-        if n.kind == 'stmt' and a is not None:
-            if isinstance(a, (ast.Assign, ast.AugAssign)) and writes(a) and n.frame.func.name != '__init__':
+        if n.kind == 'stmt' and n.ast is not None:
+            if writes(n):
                 if st.fields['#dirty'] == 'T':
                     st = st.with_flag('DOUBLE-WRITE')
                 st = st.with_field('#dirty', 'T')
             for cl in calls_at(an.g, n):
-                if call_attr(cl) == 'add_datapoint' and cl.args and isinstance(cl.args[0], ast.Constant) and cl.args[0].value == label:
+                if call_attr(cl) == 'add_datapoint' and cl.args and ((isinstance(cl.args[0], ast.Constant) and cl.args[0].value == label)
+                                                                       or (callable(label) and label(cl, n))):
                     if payload_check is not None and not payload_check(cl, n):
                         st = st.with_flag('BAD-PAYLOAD')
+                    if st.fields['#dirty'] != 'T':
+                        st = st.with_flag('RECORD-WITHOUT-CHANGE')
                     st = st.with_field('#dirty', 'F')
         return st
     ents = entries if entries is not None else dv.entry_points(P, c)
     nw = 0
     for e in sorted(ents):
-        if e == 'initialize' and entries is None and env_field:
-            pass
-        g = ctx.graph(c, e, opaque=OPQ)
-        tracked = ['#dirty'] + ([env_field] if env_field else [])
-        an = Analysis(P, g, tracked, call_models={'generate_part': 'S'})
+        g = ctx.graph(c, e, opaque=opaque)
+        tracked = ['#dirty'] + ([env_field] if env_field else []) + list(fixed_fields or {})
+        an = Analysis(P, g, tracked, call_models={'generate_part': 'S', 'reserve_resources': TOP})
         an.node_hooks.append(hook)
         f0 = {'#dirty': 'F'}
         if env_field:
             f0[env_field] = 'S'
+        f0.update(fixed_fields or {})
         res = ctx.explore(an, [State(f0)])
-        wrote = any(n.kind == 'stmt' and isinstance(n.ast, (ast.Assign, ast.AugAssign)) and writes(n.ast) and res.visited(n.id)
-                    and n.frame.func.name != '__init__' for n in g.nodes.values())
+        wrote = any(writes(n) and res.visited(n.id) for n in g.nodes.values())
         for st in res.exits():
             o.count()
             if st.fields['#dirty'] == 'T' or 'DOUBLE-WRITE' in st.flags or 'BAD-PAYLOAD' in st.flags:
-                ln = dv.last_node(res, g.exit, st, lambda n: n.kind == 'stmt' and isinstance(n.ast, (ast.Assign, ast.AugAssign)) and writes(n.ast))
-                what = ('the record does not carry the current time / value / source name' if 'BAD-PAYLOAD' in st.flags else
-                        f"a change of {field} is not followed by its '{label}' record")
-                o.fail(P, f'{c.name}.{e}', ln.ast if ln else f'self.{field}', what, node=ln, file=c.mod.path, path=res.path_lines(g.exit, st))
+                ln = dv.last_node(res, g.exit, st, writes)
+                msg = ('the record does not carry the current time / the value / the source name' if 'BAD-PAYLOAD' in st.flags else
+                       f"{what} is not followed by its '{label if isinstance(label, str) else 'datapoint'}' record")
+                o.fail(P, f'{c.name}.{e}', ln.ast if ln else (f'self.{field}' if field else what), msg, node=ln, file=c.mod.path, path=res.path_lines(g.exit, st))
         if wrote:
             nw += 1
-            o.witness((c.name, e, field))
+            o.witness((c.name, e, field or what))
     return nw
 
 
